@@ -764,6 +764,8 @@ pub enum ProfKind {
     Zeros,
     Uniform,
     Unnormalised,
+    /// weights down to subnormal doubles next to ordinary ones
+    Tiny,
 }
 
 pub fn gen_profile(rng: &mut Rng, t: &T, kind: ProfKind) -> [Named; 2] {
@@ -779,6 +781,12 @@ pub fn gen_profile(rng: &mut Rng, t: &T, kind: ProfKind) -> [Named; 2] {
                 ProfKind::Pure => {
                     let k = rng.below(n as u64) as usize;
                     (0..n).map(|i| if i == k { 1.0 } else { 0.0 }).collect()
+                }
+                ProfKind::Tiny => {
+                    let k = rng.below(n as u64) as usize;
+                    (0..n)
+                        .map(|i| if i == k { 1.0 } else { *rng.pick(&[1e-310, 5e-324, 1e-300, 0.0, 2.5e-308, 0.25]) })
+                        .collect()
                 }
                 ProfKind::Zeros => {
                     let k = rng.below(n as u64) as usize;
@@ -804,6 +812,17 @@ pub fn gen_profile(rng: &mut Rng, t: &T, kind: ProfKind) -> [Named; 2] {
         }
     }
     out
+}
+
+/// profile kinds for checks that only *show* a profile (named view, truncation): also weights
+/// down to subnormal doubles.  Evaluation checks do not draw these: a reach product that underflows
+/// to zero is the class of known finding F30.
+pub fn pick_prof_kind_view(rng: &mut Rng) -> ProfKind {
+    if rng.chance(0.12) {
+        ProfKind::Tiny
+    } else {
+        pick_prof_kind(rng)
+    }
 }
 
 pub fn pick_prof_kind(rng: &mut Rng) -> ProfKind {
